@@ -1,179 +1,3 @@
-import Cppcms.Common
-import Cppcms.C07.Model
-import Cppcms.C07.Spec
-/-!
-Line-protocol driver for C07 (shared with C08).
-
-* plain lines (`new`, `store`, `fetch`, `rise`, `remove`, `clear`, `stats`) run the concrete
-  model `step`, keeping the cache state across lines; the answer has the harness's format
-  `<result> | <size> <trigCount>`.
-* `J <impl answer …> ; <case line …>` lines run the *specification* (`Spec.step`) over the history
-  and judge the implementation's answer with the property predicate (`OutOk`-style: a hit must be
-  the specification's entry, a miss is allowed only where eviction is possible, the entry count
-  respects the limit).  Answer `1` or `0 <reason>`.
-
-Annotations on `store` lines (oracle answers recorded from the real allocator by the harness):
-`copyfail` → `StoreEnv.copyFails`; `cleared`, `bumped` → `lateFails`; `keys=<n>` → the number of
-`not_enough_memory()` answers `true` is chosen minimal such that the store ends with `n` entries.
--/
-open Cppcms Cppcms.C07
-
-def parseTrigs (w : String) : Option (List Key) :=
-  if w == "-" then some []
-  else (w.splitOn ",").mapM fun p => if p == "e" then some [] else if p == "-" then none else parseHex p
-
-def parseVal (w : String) : Option Val :=
-  match w.toList with
-  | 'r' :: a :: b :: 'x' :: n =>
-    match hexDigit a, hexDigit b, (String.ofList n).toNat? with
-    | some x, some y, some cnt => some (List.replicate cnt (UInt8.ofNat (x * 16 + y)))
-    | _, _, _ => none
-  | _ => parseHex w
-
-def parseGen (w : String) : Option (Option Gen) :=
-  if w == "-" then some none else w.toNat?.map fun n => some (UInt64.ofNat n)
-
-def trigStr (t : Key) : String := if t.isEmpty then "e" else toHex t
-
-def trigsStr (ts : List Key) : String :=
-  if ts.isEmpty then "-" else ",".intercalate (ts.map trigStr)
-
-def outStr : Out → String
-  | .miss => "miss"
-  | .hit v ts d g => s!"hit {toHex v} {trigsStr ts} {d} {g.toNat}"
-  | .done => "ok"
-  | .stats _ _ => "ok"
-
-structure JState where
-  sp : Spec := Spec.empty
-  counter : Gen := 0
-  limit : Nat := 0
-  process : Bool := false
-  pressure : Bool := false      -- an allocation failure / low memory was observed in this history
-
-structure DState where
-  cache : Option State := none
-  j : JState := {}
-
-def parseOp (w : List String) : Option (Op × List String) :=
-  match w with
-  | "store" :: now :: k :: v :: ts :: d :: g :: ann =>
-    match now.toInt?, parseHex k, parseVal v, parseTrigs ts, d.toInt?, parseGen g with
-    | some now, some k, some v, some ts, some d, some g =>
-      let env : StoreEnv :=
-        { copyFails := ann.contains "copyfail"
-          lateFails := if ann.contains "cleared" then some (ann.contains "bumped") else none }
-      some (.store now k v ts d g env, ann)
-    | _, _, _, _, _, _ => none
-  | ["fetch", now, k] =>
-    match now.toInt?, parseHex k with
-    | some now, some k => some (.fetch now k, [])
-    | _, _ => none
-  | ["rise", t] => (if t == "e" then some [] else parseHex t).map fun t => (.rise t, [])
-  | ["remove", k] => (parseHex k).map fun k => (.remove k, [])
-  | ["clear"] => some (.clear, [])
-  | ["stats"] => some (.stats, [])
-  | _ => none
-
-/-- choose the memory-pressure answers so that the store ends with `n` entries (minimal number of
-`true`s); `none` when no choice does -/
-def fitLowMem (s : State) (op : Op) (n : Nat) : Option Op :=
-  match op with
-  | .store now k v ts d g env =>
-    (List.range (s.size + 2)).findSome? fun m =>
-      let op' := Op.store now k v ts d g { env with lowMem := List.replicate m true }
-      if (step s op').1.size == n then some op' else none
-  | _ => none
-
-def keysAnn (ann : List String) : Option Nat :=
-  ann.findSome? fun a => if a.startsWith "keys=" then (a.drop 5).toString.toNat? else none
-
-def modelLine (st : DState) (w : List String) : DState × String :=
-  match w with
-  | "new" :: backend :: limit :: rest =>
-    match limit.toNat?, backend, rest with
-    | some l, "thread", [] => ({ st with cache := some (State.init l none) }, "ok | 0 0")
-    | some l, "process", [mem] =>
-      match mem.toNat? with
-      | some m => ({ st with cache := some (State.init l (some (Gen.processSizeLimit m))) }, "ok | 0 0")
-      | none => (st, "bad-op")
-    | _, _, _ => (st, "bad-op")
-  | _ =>
-    match st.cache, parseOp w with
-    | some s, some (op, ann) =>
-      let op := match keysAnn ann with
-        | some n => (fitLowMem s op n).getD op
-        | none => op
-      let (s', o) := step s op
-      let extra := if ann.contains "copyfail" then " copyfail" else ""
-      ({ st with cache := some s' }, s!"{outStr o}{extra} | {s'.size} {s'.trigCount}")
-    | _, _ => (st, "bad-op")
-
-/-! ### judge -/
-
-def sameSet (a b : List Key) : Bool := a.all (b.contains ·) && b.all (a.contains ·)
-
-def nodupB : List Key → Bool
-  | [] => true
-  | a :: l => !l.contains a && nodupB l
-
-def splitAt (sep : String) (w : List String) : List String × List String :=
-  (w.takeWhile (· ≠ sep), (w.dropWhile (· ≠ sep)).drop 1)
-
-def judgeLine (st : DState) (w : List String) : DState × String :=
-  let (implw, casew) := splitAt ";" w
-  let (res, tailw) := splitAt "|" implw
-  let j := st.j
-  let j := if tailw.contains "lowmem" then { j with pressure := true } else j
-  -- entry count within the limit (C08 clause, judged on every line)
-  let keysOk : Bool := match tailw with
-    | k :: _ => (match k.toNat? with | some n => j.limit == 0 || n ≤ j.limit | none => false)
-    | [] => false
-  match casew with
-  | "new" :: backend :: limit :: _ =>
-    match limit.toNat? with
-    | some l => ({ st with j := { limit := l, process := backend == "process" } }, if res == ["ok"] && tailw.take 2 == ["0", "0"] then "1" else "0 new")
-    | none => (st, "0 bad-new")
-  | _ =>
-    match parseOp casew with
-    | none => (st, "0 bad-case")
-    | some (op, _) =>
-      if !keysOk then ({ st with j := j }, "0 size-exceeds-limit") else
-      match op with
-      | .store _ _ _ _ _ g _ =>
-        let copyfail := res.contains "copyfail"
-        let j := if copyfail then { j with pressure := true } else j
-        let stampv : Option Gen := if copyfail then none else some (g.getD j.counter)
-        let j := { j with sp := (Spec.step j.sp op stampv).1,
-                          counter := if g.isNone && !copyfail then j.counter + 1 else j.counter }
-        ({ st with j := j }, if res.head? == some "ok" then "1" else "0 store-answer")
-      | .fetch now k =>
-        let expect := Spec.fetch j.sp now k
-        let verdict : String :=
-          match res, expect with
-          | ["miss"], .miss => "1"
-          | ["miss"], .hit _ _ _ _ =>
-            -- a live entry may be missing only if something can have evicted it
-            if j.limit > 0 || j.pressure then "1" else "0 live-entry-not-found"
-          | ["hit", v, ts, d, g], .hit v' ts' d' g' =>
-            (match parseHex v, parseTrigs ts, d.toInt?, g.toNat? with
-             | some v, some ts, some d, some g =>
-               if v != v' then "0 stale-or-wrong-value"
-               else if !(sameSet ts ts' && nodupB ts) then "0 wrong-trigger-set"
-               else if d != d' then "0 wrong-deadline"
-               else if !j.pressure && UInt64.ofNat g != g' then "0 wrong-generation"
-               else "1"
-             | _, _, _, _ => "0 unparsable-hit")
-          | "hit" :: _, .miss => "0 hit-but-specification-misses"
-          | _, _ => "0 fetch-answer"
-        ({ st with j := j }, verdict)
-      | _ =>
-        let j := { j with sp := (Spec.step j.sp op none).1 }
-        ({ st with j := j }, if res == ["ok"] then "1" else "0 answer")
-
-def stepLine (st : DState) (line : String) : DState × String :=
-  match words line with
-  | "J" :: rest => judgeLine st rest
-  | w => modelLine st w
-
-def main : IO Unit := lineLoop ({} : DState) stepLine
+import Cppcms.C07.Proto
+/-! `c07_model`: line-protocol driver for the cache model and the C07 judge (see `Proto.lean`). -/
+def main : IO Unit := Cppcms.lineLoop ({} : Cppcms.C07.Proto.DState) Cppcms.C07.Proto.stepLine
